@@ -6,6 +6,7 @@ package c11
 
 import (
 	"fmt"
+	"math/rand"
 	"net/http"
 	"net/url"
 	"strings"
@@ -63,7 +64,7 @@ func TestProp(t *testing.T) {
 	}
 	env := vh.GetEnv()
 	rep := vh.NewReport("C11", "exploration")
-	rep.Rule("per stack 16 generated upstreams cover every non-empty subset of {allowed_email_addresses, allowed_email_domains, allowed_groups} (each >= 2x) with list variants (several entries, case variants, lone *, * mixed, empty-string entry, non-ASCII entry, leading-@ domain, white space); cases stride over e-mail class (24: listed/case variants/several @/empty local/empty/look-alikes/no @/trailing dot/white space/unicode/long/...) x provider group answer (7: member/other/empty/error/case variant/near name/last listed) per upstream; each case is evaluated at the real /oauth2/callback, on the next request, after validity expiry (/validate + /profile) and after token expiry (/refresh + /profile) with unchanged facts; a second stream (c11-moved: upstreams listing 2-3 groups, masks group / address+group / domain+group / all) CHANGES the provider's group answer between the moments (login: first listed / last listed / both / unlisted / none; revalidation and refresh independently: first / last / both / unlisted / none / provider error; refresh from the login cookie or from the cookie revalidation set) and judges every moment against the reference with the facts of that moment. distinct = (kinds, list variants, e-mail class, group answer, login verdict, cookie source), counted when the callback answered. The empty rule set is probed through the configuration loader (separate stream)")
+	rep.Rule("per stack 16 generated upstreams cover every non-empty subset of {allowed_email_addresses, allowed_email_domains, allowed_groups} (each >= 2x) with list variants (several entries, case variants, lone *, * mixed, empty-string entry, non-ASCII entry, leading-@ domain, white space); cases stride over e-mail class (24: listed/case variants/several @/empty local/empty/look-alikes/no @/trailing dot/white space/unicode/long/...) x provider group answer (7: member/other/empty/error/case variant/near name/last listed) per upstream; each case is evaluated at the real /oauth2/callback, on the next request, after validity expiry (/validate + /profile) and after token expiry (/refresh + /profile) with unchanged facts; a second stream (c11-moved: upstreams listing 2-3 groups, masks group / address+group / domain+group / all) CHANGES the provider's group answer between the moments (login: first listed / last listed / both / unlisted / none; revalidation and refresh independently: first / last / both / unlisted / none / provider error; refresh from the login cookie or from the cookie revalidation set) and judges every moment against the reference with the facts of that moment; a third stream (c11-long) configures allowed_groups lists of 21/25/40/100 names (some with spaces, non-ASCII letters, 120 characters) and users whose only listed group sits at position 1/20/21/22/last/random of the list as the proxy asks it, at all four moments. /profile is answered like the real authenticator does (only groups the request asked about; sut.ProfileFaithful) except for one case in eight, which gets a fixed answer that also names an unasked, unlisted group. distinct = (kinds, list variants, e-mail class, group answer, login verdict, cookie source), counted when the callback answered. The empty rule set is probed through the configuration loader (separate stream)")
 	rep.Assume("the fake authenticator answers exactly as scripted (redeem/validate/refresh/profile keyed by per-case tokens)")
 	rep.Assume("virtual time = shifting the deadlines inside the sealed cookie with the proxy's own cipher (DESIGN 2.4)")
 	rep.Assume("for sessions minted by the harness (login refused) group membership on a request with no check due is 'as of the last check': not judged; a session with an empty e-mail cannot be issued (redeem refuses it): not judged where no e-mail rule is configured")
@@ -92,6 +93,15 @@ func TestProp(t *testing.T) {
 		}
 		vh.ForEach(nConfigs, 8, onlyCfg, func(ci int) { runMovedConfig(rep, env, ci, perMoved, onlyM) })
 	}
+	// long allowed_groups lists (long_test.go)
+	perLong := env.Pick(48, 96)
+	if onlyL, skipL := env.Only("c11-long"); !skipL {
+		onlyCfg := -1
+		if onlyL >= 0 {
+			onlyCfg = onlyL / perLong
+		}
+		vh.ForEach(nConfigs, 8, onlyCfg, func(ci int) { runLongConfig(rep, env, ci, perLong, onlyL) })
+	}
 	onlyE, skipE := env.Only("c11-empty")
 	if !skipE && only < 0 {
 		nEmpty := env.Pick(10, 40)
@@ -113,6 +123,12 @@ func TestProp(t *testing.T) {
 		for _, f := range []string{"moved-to-other-listed-group", "joined-listed-group", "left-every-listed-group", "listed-groups-changed", "unchanged"} {
 			floors["moved_judged_"+site+"_"+f] = 8
 		}
+	}
+	for _, c := range []string{"long_login_admitted_by_group_beyond_position_20", "long_revalidation_admitted_by_group_beyond_position_20", "long_refresh_admitted_by_group_beyond_position_20",
+		"profile_requests_asking_021_groups", "profile_requests_asking_025_groups", "profile_requests_asking_040_groups", "profile_requests_asking_100_groups",
+		"long_position_1", "long_position_20", "long_position_21", "long_position_22", "long_position_last", "long_position_special-name",
+		"profile_answers_fixed_with_unasked_group", "profile_answers_faithful"} {
+		floors[c] = 5
 	}
 	for k, v := range floors {
 		if env.Replay != "" {
@@ -195,11 +211,40 @@ func login(rep *vh.Report, ps *sut.ProxyStack, u *upstream, k int, email string,
 	return ps.Login(u.host, "/app/start", answer)
 }
 
-func scriptAnswer(email string, memberOf []string, failed bool) sut.Answer {
-	if failed {
+// scriptAnswer scripts /profile. By default the fake behaves like the real authenticator (sut.ProfileFaithful:
+// it reports the user's groups among the groups the request asked about, in the order asked), so whatever
+// the proxy gets wrong about WHICH groups it asks for shows in the verdict. fixed answers (a small share of
+// the cases) report memberOf verbatim, preceded by a group nobody asked about: the proxy must ignore those.
+func scriptAnswer(email string, memberOf []string, failed, fixed bool) sut.Answer {
+	switch {
+	case failed:
 		return sut.Status(500)
+	case fixed:
+		return sut.ProfileOK(email, append([]string{"zz-unasked-unlisted"}, memberOf...))
 	}
-	return sut.ProfileOK(email, memberOf)
+	return sut.ProfileFaithful(email, memberOf)
+}
+
+// fixedAnswers draws whether a case scripts fixed /profile answers (one case in eight; drawn from the case's
+// PRNG after everything else so it is independent of upstream, e-mail class and answer class).
+func fixedAnswers(r *rand.Rand) bool { return r.Intn(8) == 0 }
+
+// drainCalls forgets the recorded back-channel calls of a case and records how many groups each /profile
+// request asked about (first `groups` parameter, as the authenticator reads it).
+func drainCalls(rep *vh.Report, ps *sut.ProxyStack, keys [][2]string) {
+	for _, e := range keys {
+		for _, c := range ps.Auth.Calls(e[0], e[1]) {
+			if e[0] != "profile" {
+				continue
+			}
+			n := 0
+			if c.Groups != "" {
+				n = len(strings.Split(c.Groups, ","))
+			}
+			rep.Count(fmt.Sprintf("profile_requests_asking_%03d_groups", n), 1)
+			rep.Count("profile_requests", 1)
+		}
+	}
 }
 
 // request performs one request with the given sealed session cookie and classifies what happened.
@@ -238,7 +283,11 @@ func runCase(rep *vh.Report, env vh.Env, ps *sut.ProxyStack, u *upstream, ci, i,
 
 	id := sut.NewID()
 	at, rt, nt := "at-"+id, "rt-"+id, "nt-"+id
-	prof := scriptAnswer(email, memberOf, provFailed)
+	fixed := fixedAnswers(r)
+	prof := scriptAnswer(email, memberOf, provFailed, fixed)
+	if u.mask&kGrp != 0 {
+		rep.Count(map[bool]string{true: "profile_answers_fixed_with_unasked_group", false: "profile_answers_faithful"}[fixed], 1)
+	}
 	ps.Auth.Set("profile", at, prof)
 	ps.Auth.Set("profile", nt, prof)
 	ps.Auth.Set("validate", at, sut.ValidateOK())
@@ -248,9 +297,7 @@ func runCase(rep *vh.Report, env vh.Env, ps *sut.ProxyStack, u *upstream, ci, i,
 		ps.Auth.Unset("profile", nt)
 		ps.Auth.Unset("validate", at)
 		ps.Auth.Unset("refresh", rt)
-		for _, e := range [][2]string{{"profile", at}, {"profile", nt}, {"validate", at}, {"refresh", rt}} {
-			ps.Auth.Calls(e[0], e[1])
-		}
+		drainCalls(rep, ps, [][2]string{{"profile", at}, {"profile", nt}, {"validate", at}, {"refresh", rt}})
 	}()
 
 	kc := kase{Index: i, Config: ci, Upstream: u.idx, Kinds: maskName(u.mask),
@@ -553,8 +600,8 @@ func runEmpty(rep *vh.Report, env vh.Env, i int) {
 	for _, email := range []string{"user@" + word(r, 5) + ".test", "@" + word(r, 4) + ".test", "*", ""} {
 		id := sut.NewID()
 		at, rt, nt := "at-"+id, "rt-"+id, "nt-"+id
-		ps.Auth.Set("profile", at, sut.ProfileOK(email, []string{"any"}))
-		ps.Auth.Set("profile", nt, sut.ProfileOK(email, []string{"any"}))
+		ps.Auth.Set("profile", at, sut.ProfileFaithful(email, []string{"any"}))
+		ps.Auth.Set("profile", nt, sut.ProfileFaithful(email, []string{"any"}))
 		ps.Auth.Set("validate", at, sut.ValidateOK())
 		ps.Auth.Set("refresh", rt, sut.RefreshOK(nt, 3600))
 		ec.Email = email
